@@ -392,6 +392,7 @@ def u_finalize(ctx):
     for which in ("finalize", "__del__"):
         for initialised in ((True, False) if which == "__del__" else (True,)):
             eng = ctx.engine(f"C10/RenderData.{which}" + ("" if initialised else "[unsuccessful-init]"), "C10")
+            eng.default_replay = "C10.raising_finalizer"
             st = State()
             fin0 = z3.Bool("finalized0")
             cls = st.new("rendercls", {})
